@@ -301,6 +301,120 @@ func (r *runner) forkStates(family string, minGid int64, routes []string, stride
 	r.res.Extra[family+"_programs"] = n
 }
 
+// ---- bounded-exhaustive family: stack frames on both sides of a fork ------------------------------------------
+//
+// "Stack frames made in a forked context are invisible to its parent and siblings", and the parent's later frames
+// are invisible to the fork.  A push on either side alone never writes a slot that existed at fork time; what does
+// is a pop followed by a push below the depth at the fork - in the fork (parent and siblings must keep their
+// frames) or in the parent while the fork is alive (the fork must keep its frames).  So: every push/pop history of
+// the parent before the fork (all pop-safe sequences of <= 3 operations: depth 0..3, with and without spare capacity
+// behind the top) x what the fork does (nothing / push / pop / pop, push / pop, pop, push, push - never popping more
+// than it inherited) x what the parent does after the fork while the fork is alive (the same five) x the four fork
+// routes, with an Observe (every frame of Stack(), and StackTop()) after every step on both sides, in a sibling forked
+// while the first fork is alive and afterwards.  Goroutine routes: the interleaving is the scheduler's (parent first,
+// child first, alternating, random).  Scope routes: the parent's steps happen inside the fork's scope, with the
+// parent's context re-established (DoWithContext(up 1)).
+
+var fkHist = [][]Prog{
+	{},
+	{push(1)},
+	{push(1), pop()},
+	{push(1), push(2)},
+	{push(1), push(2), pop()},
+	{push(1), pop(), push(2)},
+	{push(1), push(2), push(3)},
+}
+
+// pops, pushes
+var fkOps = [][2]int{{0, 0}, {0, 1}, {1, 0}, {1, 1}, {2, 2}}
+
+func histDepth(h []Prog) int {
+	d := 0
+	for _, p := range h {
+		if p.Op == "Push" {
+			d++
+		} else {
+			d--
+		}
+	}
+	return d
+}
+
+// stackSteps: pops (at most `depth`) then pushes of base+1.., an Observe after each
+func stackSteps(op [2]int, depth, base int) []Prog {
+	b := []Prog{}
+	for i := 0; i < op[0] && i < depth; i++ {
+		b = append(b, pop(), obs())
+	}
+	for i := 0; i < op[1]; i++ {
+		b = append(b, push(base+1+i), obs())
+	}
+	return b
+}
+
+func forkStackProgram(kind, route string, hist []Prog, fop, pop2 [2]int) [][]Prog {
+	d := histDepth(hist)
+	childOps := stackSteps(fop, d, 10)
+	parentOps := stackSteps(pop2, d, 20)
+	sibling := []Prog{obs(), push(30), obs(), pop(), obs()}
+	var inner []Prog
+	switch route {
+	case "Fork", "Go":
+		child := cat([]Prog{obs()}, childOps, []Prog{obs(), obs()})
+		inner = cat(hist, []Prog{obs(), mkScope(route, child)}, parentOps,
+			[]Prog{mkScope(route, sibling), obs(), push(40), obs(), mkScope(route, []Prog{obs()}), obs()})
+	default:
+		// inside the fork's scope the parent context is env[1]
+		up := cat(parentOps, []Prog{mkScope(route, sibling), obs()})
+		child := cat([]Prog{obs()}, childOps, []Prog{doUp(1, up...), obs()})
+		inner = cat(hist, []Prog{obs(), mkScope(route, child), obs(), mkScope(route, sibling), obs(), push(40), obs()})
+	}
+	switch kind {
+	case "Do":
+		return [][]Prog{{do(inner...), obs()}}
+	case "ForkOf":
+		// the parent is itself a fork and inherited its frames
+		return [][]Prog{{do(cat(hist, []Prog{doCtx("fork", inner[len(hist):]...), obs()})...), obs()}}
+	}
+	panic("bad kind")
+}
+
+func (r *runner) forkStacks() {
+	kinds, nRandom, stride := []string{"Do"}, 1, 7
+	if r.cfg.Thorough() {
+		kinds, nRandom, stride = []string{"Do", "ForkOf"}, 3, 9
+	}
+	rng := lib.NewRng(lib.NewRng(r.cfg.Seed ^ 0x57C14).Next())
+	seen := map[string]bool{}
+	n := 0
+	for _, kind := range kinds {
+		for _, route := range fsRoutes {
+			for _, h := range fkHist {
+				for _, fop := range fkOps {
+					for _, pop2 := range fkOps {
+						roots := forkStackProgram(kind, route, h, fop, pop2)
+						relabel(roots)
+						t := (&Case{Roots: roots}).text()
+						if seen[t] {
+							continue // the pops were capped by the depth: same program as an earlier one
+						}
+						seen[t] = true
+						n++
+						k := n
+						r.schedules(roots, "forkstack", rng, nRandom, k%8 == 0, func(i int) string {
+							if (k+i)%stride == 0 {
+								return fmt.Sprintf("cases_forkstack%d", (k/stride)%2)
+							}
+							return ""
+						})
+					}
+				}
+			}
+		}
+	}
+	r.res.Extra["forkstack_programs"] = n
+}
+
 // ---- seeded random programs ---------------------------------------------------------------------------
 
 func randomBody(r *lib.Rng, depth int, inCtx bool) []Prog {
